@@ -2,6 +2,7 @@ package core
 
 import (
 	"fmt"
+	"go/token"
 	"strings"
 
 	"golang.org/x/tools/go/ssa"
@@ -195,7 +196,46 @@ func (pt *Path) RetDesc(i int) string {
 	if pt.Ret == nil || i >= len(pt.Ret.Results) {
 		return "<none>"
 	}
-	return pt.D.Of(pt.Ret.Results[i])
+	return pt.Desc(pt.Ret.Results[i])
+}
+
+// Desc is the descriptor of v on this path: phis are resolved along the path
+// and a load of a multi-store local (a named result spilled because of a
+// defer) is resolved to the last value stored to it on the path.
+func (pt *Path) Desc(v ssa.Value) string {
+	if u, ok := v.(*ssa.UnOp); ok && u.Op == token.MUL {
+		if a, ok := u.X.(*ssa.Alloc); ok && SingleStore(a) == nil {
+			if sv := pt.lastStore(a, u); sv != nil {
+				return pt.Desc(sv)
+			}
+		}
+	}
+	return pt.D.Of(v)
+}
+
+func (pt *Path) lastStore(a *ssa.Alloc, before ssa.Instruction) ssa.Value {
+	var last ssa.Value
+	for _, b := range pt.Blocks {
+		for _, ins := range b.Instrs {
+			if ins == before {
+				return last
+			}
+			if st, ok := ins.(*ssa.Store); ok && st.Addr == a {
+				last = st.Val
+			}
+		}
+	}
+	return last
+}
+
+// ArgDesc is the descriptor on this path of the i-th source-level argument
+// of the event's call (-1 = receiver).
+func (pt *Path) ArgDesc(e Ev, i int) string {
+	v := Arg(e.C, i)
+	if v == nil {
+		return "<missing>"
+	}
+	return pt.Desc(v)
 }
 
 // Count returns how many events on the path satisfy m.
